@@ -620,7 +620,48 @@ GRegCases ==
   \cup {GRow("greg:" \o t \o ":r12", <<>>, DStep("g", t, "r12")) : t \in MemTypes \ {"i64", "f", "d", "ld"}}
   \cup {GRow("greg:name:" \o n, <<>>, DStep(n, "i64", "r12")) : n \in RegNames}
   \cup {GRow("gseq:" \o StepsKey(q), SubSeq(q, 1, Len(q) - 1), q[Len(q)]) : q \in {r \in GSeqs : PrefixNotErr(r)}}
-DeclCases == RegDeclCases \cup FuncDeclCases \cup GRegCases
+(* functions whose declarations tie several global variables to ONE hard register (the names share a     *)
+(* register), followed by locals of every type: every declared variable must stay usable with exactly its *)
+(* declared type, and a register number nobody declared (the next free one, a far one) must stay          *)
+(* undeclared, as register operand, memory base and memory index.  Operands name the variable they mean    *)
+(* (kind "v:<name>", memories "m:<base>:<index>"); the rules only see its declared type.                   *)
+GG(n) == DStep(n, "i64", "r12")
+GFnPrefixes == {<<>>, <<GG("g1")>>, <<GG("g1"), GG("g2")>>, <<GG("g1"), GG("g2"), GG("g3")>>,
+                <<DStep("gf", "f", "xmm0"), DStep("hf", "f", "xmm0")>>,
+                <<DStep("x", "i64", "-"), GG("g1"), GG("g2")>>,
+                <<GG("g1"), DStep("h", "i64", "r13"), GG("g2"), DStep("h2", "i64", "r13")>>}
+GFnLocals == {<<DStep("li", "i64", "-"), DStep("lf", "f", "-"), DStep("ldb", "d", "-"), DStep("lld", "ld", "-")>>,
+              <<DStep("lld", "ld", "-"), DStep("ldb", "d", "-"), DStep("lf", "f", "-"), DStep("li", "i64", "-")>>}
+VCls(t) == IF t = "i64" THEN "i" ELSE t
+VReg(v) == Opnd("v:" \o v.n, "reg", v.t, "none", "none", 0)
+URegK(u) == Opnd("r_" \o u, "reg", "undecl", "none", "none", 0)           \* u: "next" (last declared + 1) or "far"
+VMem(t, bn, bc, xn, xc) == Opnd("m:" \o bn \o ":" \o xn, "mem", t, bc, xc, 0)
+ImmOf(t) == CASE t = "i64" -> ImmInt [] t = "f" -> ImmF [] t = "d" -> ImmD [] t = "ld" -> ImmLD
+MovOf(t) == CASE t = "i64" -> "mov" [] t = "f" -> "fmov" [] t = "d" -> "dmov" [] t = "ld" -> "ldmov"
+AddOf(t) == CASE t = "i64" -> "add" [] t = "f" -> "fadd" [] t = "d" -> "dadd" [] t = "ld" -> "ldadd"
+A1Var == [n |-> "a1", t |-> "i64", hr |-> "-"]
+GFnRow(decls, what, exec, insns) ==
+  [MkRowF("decl", "gfn:" \o StepsKey(decls) \o ":" \o what, "gfn:" \o what, Fn0, insns) EXCEPT !.exec = exec]
+  @@ [what |-> "gfn", decls |-> decls,
+      preexp |-> [i \in 1..Len(decls) |-> MkVerdict(GDeclCheck(SubSeq(decls, 1, i - 1), decls[i])).exp]]
+GFnRowsOf(decls) ==
+  LET vars == {A1Var} \cup {decls[i] : i \in 1..Len(decls)}
+  IN (* (a) every variable with every move: accepted exactly for its declared type; run when accepted *)
+     {GFnRow(decls, MovOf(t) \o ":" \o v.n, TRUE, <<Insn(MovOf(t), <<VReg(v), ImmOf(t)>>)>>) : v \in vars, t \in {"i64", "f", "d", "ld"}}
+     \cup {GFnRow(decls, "defuse:" \o v.n, TRUE,
+                  <<Insn(MovOf(v.t), <<VReg(v), ImmOf(v.t)>>), Insn(AddOf(v.t), <<VReg(v), VReg(v), VReg(v)>>)>>) : v \in vars}
+     \cup {GFnRow(decls, "base:" \o v.n, FALSE, <<Insn("mov", <<VMem("i64", v.n, VCls(v.t), "none", "none"), ImmInt>>)>>) : v \in vars}
+     \cup {GFnRow(decls, "index:" \o v.n, FALSE, <<Insn("mov", <<VMem("i64", "a1", "i", v.n, VCls(v.t)), ImmInt>>)>>) : v \in vars}
+     (* (b) a register number that was never declared *)
+     \cup UNION {{GFnRow(decls, "undecl:dst:" \o u, FALSE, <<Insn("mov", <<URegK(u), ImmInt>>)>>),
+                  GFnRow(decls, "undecl:src:" \o u, FALSE, <<Insn("mov", <<VReg(A1Var), URegK(u)>>)>>),
+                  GFnRow(decls, "undecl:dsrc:" \o u, FALSE, <<Insn("dmov", <<URegK(u), ImmD>>)>>),
+                  GFnRow(decls, "undecl:base:" \o u, FALSE, <<Insn("mov", <<VMem("i64", u, "undecl", "none", "none"), ImmInt>>)>>),
+                  GFnRow(decls, "undecl:index:" \o u, FALSE, <<Insn("mov", <<VMem("i64", "a1", "i", u, "undecl"), ImmInt>>)>>),
+                  GFnRow(decls, "undecl:dbase:" \o u, FALSE, <<Insn("dmov", <<VMem("d", u, "undecl", "none", "none"), ImmD>>)>>)}
+                 : u \in {"next", "far"}}
+GFnCases == UNION {GFnRowsOf(p \o l) : p \in GFnPrefixes, l \in GFnLocals}
+DeclCases == RegDeclCases \cup FuncDeclCases \cup GRegCases \cup GFnCases
 
 (* ======================= case selection ================================= *)
 GRP == IF "GRP" \in DOMAIN IOEnv THEN IOEnv.GRP ELSE "kind"
